@@ -429,6 +429,29 @@ def run(ctx, consume):
                     stat_meta.append((r, c))
         else:
             st["rejects"] += 1
+    # the tokenisation theorem (C01_glr_model_valid_full): its boolean conditions are evaluated
+    # on every case (command 212); where they hold and the model returns a forest, the verified
+    # validator forest_ok must accept that forest (an instance of the theorem, re-checked)
+    if consume:
+        tcases = [(212, [mc[1][0], mc[1][1]]) for mc in mcases]
+        touts = common.model_run(tcases)
+        st["tok_theorem_applicable"] = sum(1 for o in touts if o == 1)
+        vcases, vmeta = [], []
+        wsl = None
+        for (r, c), mo, to in zip(meta, outs, touts):
+            if to == 1 and mo[0] == 0 and len(mo[2]) <= 400 and not r["opts"].get("position"):
+                tp = topo(mo[1], mo[2])
+                if tp is not None:
+                    start = r["grammar"][0][1][0][1]
+                    vcases.append((6, [r["grammar"], tp, c["chars"], c["rx"], r["ws"], start, 0, 1, 0]))
+                    vmeta.append((r, c))
+        st["tok_theorem_instances_checked"] = len(vcases)
+        for (r, c), vo in zip(vmeta, common.model_run(vcases)):
+            if vo != 1:
+                ctx.violation("%s: forest_ok rejects a model forest although the conditions of "
+                              "C01_glr_model_valid_full hold" % KEY,
+                              {"correspondence": KEY, "grammar": r["gtext"], "options": r["opts"],
+                               "input": c["input"]}, no_input=True, key=KEY + "-tok")
     # len(forest) and ambiguities of the model's forest through the forest model (C03)
     souts = common.model_run(stat_cases)
     for (r, c), so in zip(stat_meta, souts):
